@@ -98,8 +98,15 @@ func (sv structValue) invoke(fv reflect.Value) Value {
 		return nilValue
 	}
 	results := fv.Call([]reflect.Value{})
-	if len(results) > 1 && !results[1].IsNil() {
-		panic(results[1].Interface())
+	if len(results) > 1 {
+		// a second result that is not nil is the method's error; a result of a kind that cannot
+		// be nil (time.Time.Zone returns a string and an int) is not an error at all
+		switch results[1].Kind() {
+		case reflect.Chan, reflect.Func, reflect.Interface, reflect.Map, reflect.Ptr, reflect.Slice, reflect.UnsafePointer:
+			if !results[1].IsNil() {
+				panic(results[1].Interface())
+			}
+		}
 	}
 	return ValueOf(results[0].Interface())
 }
